@@ -3,10 +3,12 @@ package props
 import (
 	"os"
 	"testing"
+
+	"github.com/openfga/openfga/verifharness/fw"
 )
 
 func TestMain(m *testing.M) {
 	code := m.Run()
-	FlushAll()
+	fw.FlushAll()
 	os.Exit(code)
 }
